@@ -537,7 +537,7 @@ func runC18(c *Check) {
 		}
 	}
 	if fn := c.Fn("R4", "client.sendMessages"); fn != nil {
-		hs := paramNamed(fn, "handshakeComplete")
+		hs := paramAt(fn, "handshakeComplete", 2)
 		n := 0
 		for _, s := range sitesIn(fn) {
 			if o := calleeObj(s.CC); o == nil || o.Name() != "Serialize" {
